@@ -14,7 +14,7 @@ No concrete board is built and nothing of the generator is executed.
 from fractions import Fraction
 
 from .loader import AnalysisError
-from .symx import SymX, show, simp, C, TRUE, FALSE, is_const, UNBOUND
+from .symx import SymX, show, simp, C, TRUE, FALSE, is_const, UNBOUND, is_term
 
 
 class Undecided(AnalysisError):
@@ -634,7 +634,7 @@ def _sub(t):
 
     def walk(x):
         if isinstance(x, tuple):
-            if x and isinstance(x[0], str):
+            if is_term(x):
                 out.append(x)
             for y in x:
                 walk(y)
